@@ -227,16 +227,19 @@ def run(ctx):
         c20_opts.tonsq_e2e(ctx, b_tonsq, corr_broken)
     # ---- relays
     if not ctx.replay_in:
-        b = ctx.go_test_binary("apps/nsq_to_nsq", ["e8/n2n_test.go", "e8/stub_nsqd.go"], "e8n2n", pkgname="main")
+        b = ctx.go_test_binary("apps/nsq_to_nsq", ["e8/n2n_test.go", "e8/n2n_opts_test.go", "e8/stub_nsqd.go"], "e8n2n", pkgname="main")
         if not b:
             ctx.broken_ties.append("harness e8/n2n_test.go does not compile against the current tree")
         else:
             run_relay(ctx, b, "TestVerifN2NCorr", "n2n", corr_broken, ctx.budget(720, 7200))
-        b = ctx.go_test_binary("apps/nsq_to_http", ["e8/n2h_test.go", "e8/stub_nsqd.go"], "e8n2h", pkgname="main")
+            c20_opts.opts_leg(ctx, b, "TestVerifN2NOpts", "n2n_opts", corr_broken)
+        b = ctx.go_test_binary("apps/nsq_to_http", ["e8/n2h_test.go", "e8/n2h_opts_test.go", "e8/stub_nsqd.go"], "e8n2h", pkgname="main")
         if not b:
             ctx.broken_ties.append("harness e8/n2h_test.go does not compile against the current tree")
         else:
             run_relay(ctx, b, "TestVerifN2HCorr", "n2h", corr_broken, ctx.budget(1800, 18000))
+            n2h_tool = c20_opts.build_tool(ctx, "apps/nsq_to_http", "nsq_to_http_real")
+            c20_opts.opts_leg(ctx, b, "TestVerifN2HOpts", "n2h_opts", corr_broken, env={"VF_E8_N2H_BIN": n2h_tool or ""})
         if b:
             giveup(ctx, b, corr_broken)
     if (ctx.broken_ties or corr_broken) and not ctx.violations:
